@@ -270,9 +270,15 @@ Definition holds_C14 (n : string) (breaker : bool) (esm_phase : Z) (ok changed :
   (negb ((esm_phase =? 2)%Z && String.eqb n "vault.MsgWithdraw") || negb ok) &&
   (ok || negb changed).
 
-(* price: an operation that succeeds although some price is inactive must not have used it:
-   its outcome equals the outcome with every price active *)
-Definition holds_C14_price (some_inactive ok base_ok same_as_base changed : bool) : bool :=
-  (negb (some_inactive && ok && base_ok) || same_as_base) && (ok || negb changed).
+(* price.  [needed_inactive]: one of the inactive feeds is a price the operation NEEDS: it reads it
+   when it runs with every feed active and no control set (observed on the implementation: store
+   trace of the market store) and the outcome of that run changes when the value of the feed is
+   scaled (x1000, /1000) - then the operation must fail.  And an inactive feed never turns a refusal into a
+   success or changes what a successful operation does: a run that succeeds with some feed inactive
+   succeeds, with the same resulting state, when every feed is active. *)
+Definition holds_C14_price (some_inactive needed_inactive ok base_ok same_as_base changed : bool) : bool :=
+  negb (needed_inactive && ok) &&
+  (negb (some_inactive && ok) || (base_ok && same_as_base)) &&
+  (ok || negb changed).
 
 Definition holds_C14_sweep (breaker started : bool) : bool := negb (breaker && started).
